@@ -22,6 +22,7 @@ Worker-side run (chanworker): the spec is a FIFO of unanswered request ids.
   wstart <buffer> <max> <sndbuf>           -> started
   wreq <seq> <idlen>                       -> sent      (not expected to be answered when idlen + 32 > ceiling)
   wread <k>                                -> got <seq,seq,..|->    (the next k outstanding, in request order)
+  wpause <ms>                              -> paused    (the main process does nothing for a while)
   wstop                                    -> alive left=<n>
 
 <segs> = `-` (empty) or comma-separated segments, each a hex string or
@@ -136,6 +137,7 @@ def stepLine (d : DState) (line : String) : DState × List String :=
       let (q, o) := wstep d.wq (.read k)
       ({ d with wq := q }, ["got " ++ (if o.isEmpty then "-" else ",".intercalate (o.map toString))])
     | none => (d, ["bad-op"])
+  | ["wpause", _] => (d, ["paused"])
   | ["wstop"] => (d, ["alive left=" ++ toString d.wq.length])
   | ["readable"] => apply d .readable
   | ["read"] => apply d .read
